@@ -341,6 +341,7 @@ func runC09(c *Ctx) {
 			// ---------- R09.6 backoff table
 			c.Rule("R09.6", "E1", "error without explicit interval → per-key backoff; success/skip → backoff cleared", 3)
 
+			skipped0 := "true(call:github.com/siderolabs/gen/xerrors.TagIs(*"
 			gb := p.CallTo("(*" + pkgQRuntime + ".Adapter).getBackoffInterval")
 			cb := p.CallTo("(*" + pkgQRuntime + ".Adapter).clearBackoff")
 			c.MustCut("R09.6", "getBackoffInterval ⊣ {reconcile error}", body, gb, CutSpec{Edges: func(e EdgeInfo) bool {
@@ -357,10 +358,25 @@ func runC09(c *Ctx) {
 					if strings.HasPrefix(f, "eq(") && strings.HasSuffix(f, ",const:0)") {
 						return true
 					}
+
+					// no RequeueError at all: nothing could have set an interval
+					if strings.HasPrefix(f, "false(call:errors.As(") {
+						return true
+					}
 				}
 
 				return false
 			}}, 1)
+
+			// the other direction: a failed (not skipped) reconcile that asked for no interval takes the backoff — it is
+			// never released without a retry time
+			failed := p.EdgeSuccs(body, "nonnil(phi(call:*runOnce(*", "nonnil(call:*runOnce(*")
+			bad, w := p.Reach(failed, IsReturn, CutSpec{Nodes: gb, Edges: func(e EdgeInfo) bool {
+				return AnyFact(e, func(f string) bool {
+					return Glob(skipped0, f) || strings.HasPrefix(f, "ne(") && strings.HasSuffix(f, ",const:0)") && strings.Contains(f, "Interval(") || strings.HasPrefix(f, "nil(") && (strings.Contains(f, ".runOnce(") || strings.Contains(f, "RequeueError).Err("))
+				})
+			}})
+			c.Check(len(failed) >= 1 && !bad, "R09.6", FuncName(body)+" :: a failed reconcile ends with the backoff taken or an explicit non-zero interval", fpos(body), fmt.Sprintf("%d failure edges", len(failed)), "a failing item can be released without a retry time: "+strings.Join(w, " "))
 			// clearBackoff exactly for skipped / successful jobs, wherever the arms are written
 			skipped := "true(call:github.com/siderolabs/gen/xerrors.TagIs(*"
 			c.MustCut("R09.6", "clearBackoff ⊣ {skipped, no reconcile error}", body, cb, CutSpec{Edges: func(e EdgeInfo) bool {
